@@ -207,7 +207,7 @@ def job_marcus(seed):
               'getdE12': lambda p, c: D(dE), 'getJeff2': lambda p, c: D(j2),
               'decl': lambda ex, vd, ty, inner: ({'rate12': D(0), 'rate21': D(0)} if ty.endswith('PairRates') else NotImplemented)}
         this = {'temperature_': D(T), 'field_': Fld, 'ratetype_': 'marcus'}
-        rvc.CTX.base = [z3.Real('lam') >= z3.RealVal('1e-12'), z3.Real('T') > 0, z3.Real('J2') > 0]    # the code refuses |lambda| < 1e-12
+        rvc.CTX.base = [z3.Real('lam') >= z3.RealVal('1e-10'), z3.Real('T') > 0, z3.Real('J2') > 0, z3.Real('lamO') > 0, z3.Real('lamO') < z3.Real('lam') / 2]    # the code refuses |lambda| < 1e-12
         ex = Exec({'pair': pair, 'carriertype': carrier}, cb, fns, this)
         try:
             ex.stmt(rvc.body_of(fns['Rate'][0]))
@@ -235,6 +235,19 @@ def job_marcus(seed):
         # positivity: prefactor > 0 (E > 0 by contract)
         obs.append(rvc.logic('C14.marcus/%s/positive' % carrier, F, 'rate prefactors are positive for J2, lambda, T > 0 (exp > 0 by contract)', z3.And(rvc.to_z3(pre12) > 0, rvc.to_z3(pre21) > 0),
                              extra=[z3.Real('hbar') > 0, z3.Real('ev2hrt') > 0, z3.Real('pi') > 0]))
+    # outer-sphere reorganisation energy: the total reorganisation energy lambda + lambda_O enters both directions alike
+    lo = sp.Symbol('lamO', positive=True)
+    res = rate('Hole', lamo=lo)
+    k12, k21 = res['rate12'].v, res['rate21'].v
+    e12 = [a for a in sp.preorder_traversal(k12) if getattr(a, 'func', None) == E]
+    e21 = [a for a in sp.preorder_traversal(k21) if getattr(a, 'func', None) == E]
+    if len(set(e12)) == 1 and len(set(e21)) == 1:
+        dGh = dE + sum(R.g(i).v * Fld.g(i).v for i in range(3))
+        obs.append(rvc.identity('C14.marcus/outer/balance.prefactor', F, 'with an outer-sphere contribution lambda_O (equal inner reorganisation energies) forward and backward prefactors still agree', k12 / e12[0], k21 / e21[0], seed))
+        obs.append(rvc.identity('C14.marcus/outer/balance.exponent', F, 'with an outer-sphere contribution lambda_O: exponent(12) - exponent(21) == dG/T (detailed balance)', e12[0].args[0] - e21[0].args[0], dGh / T, seed))
+        obs.append(rvc.identity('C14.marcus/outer/total', F, 'the forward rate is the Marcus rate for the total reorganisation energy lambda + lambda_O', k12, rate('Hole', lam12=lam + lo, lam21=lam + lo)['rate12'].v, seed))
+    else:
+        raise rvc.Unsupported('expected exactly one exp() in each rate (outer-sphere run)')
     # zero reorganisation energy is rejected
     for which in ('12', '21'):
         try:
